@@ -96,6 +96,7 @@ VARIABLE case
 Init == case \in Cases
 Next == UNCHANGED case
 Spec == Init /\ [][Next]_case
-Report == PrintT(<<"CASE", case, {d \in MustDial(case, FALSE) : TRUE}, {d \in MayDial(case, FALSE) : TRUE}>>)
+\* (the last component: what may be attempted by a client that has Tor - through Tor, which refuses addresses it cannot reach)
+Report == PrintT(<<"CASE", case, {d \in MustDial(case, FALSE) : TRUE}, {d \in MayDial(case, FALSE) : TRUE}, {d \in MayDial(case, TRUE) : TRUE}>>)
 CaseInv == (\A d \in MayDial(case, FALSE) : d[1].hostname \in {"str", "oddstr"}) /\ MustDial(case, FALSE) \subseteq MayDial(case, FALSE)
 ====
